@@ -222,6 +222,35 @@ cb_syntax_error (int err, void *ea, int ign, void *ia, int rec, void *ra)
 /* caller-side tree memory: every block gets an id; frees are checked */
 struct blk { char *p; size_t n; int live; int parse; };
 static struct blk *blks; static int nblk, capblk; static int cur_parse; static int quiet_ev;
+/* open-addressing index: block start address -> block number (latest block at that address) */
+static int *bidx; static size_t bidx_cap;
+static size_t bhash (void *p) { size_t x = (size_t) p; x ^= x >> 17; x *= 0x9E3779B97F4A7C15ull; return x ^ (x >> 29); }
+static void
+bidx_put (void *p, int id)
+{
+  size_t i;
+  if ((size_t) (nblk + 1) * 2 > bidx_cap)
+    {
+      size_t nc = bidx_cap ? bidx_cap * 2 : 4096, k; int j;
+      int *n = (int *) malloc (nc * sizeof (int));
+      for (k = 0; k < nc; k++) n[k] = -1;
+      for (j = 0; j < nblk; j++)
+	{ size_t h = bhash (blks[j].p) & (nc - 1); while (n[h] >= 0 && blks[n[h]].p != blks[j].p) h = (h + 1) & (nc - 1); n[h] = j; }
+      free (bidx); bidx = n; bidx_cap = nc;
+    }
+  i = bhash (p) & (bidx_cap - 1);
+  while (bidx[i] >= 0 && blks[bidx[i]].p != (char *) p) i = (i + 1) & (bidx_cap - 1);
+  bidx[i] = id;
+}
+static int
+bidx_get (void *p)
+{
+  size_t i;
+  if (bidx_cap == 0) return -1;
+  i = bhash (p) & (bidx_cap - 1);
+  while (bidx[i] >= 0) { if (blks[bidx[i]].p == (char *) p) return bidx[i]; i = (i + 1) & (bidx_cap - 1); }
+  return -1;
+}
 static long ev_alloc, ev_free, ev_bad;
 static void *
 cb_parse_alloc (int n)
@@ -229,6 +258,7 @@ cb_parse_alloc (int n)
   char *p = (char *) malloc (n > 0 ? n : 1);
   if (nblk == capblk) { capblk = capblk ? capblk * 2 : 1024; blks = (struct blk *) realloc (blks, capblk * sizeof *blks); }
   blks[nblk].p = p; blks[nblk].n = n; blks[nblk].live = 1; blks[nblk].parse = cur_parse;
+  bidx_put (p, nblk);
   if (!quiet_ev) printf ("%sev a %d %d\n", prefix, nblk, n);
   nblk++; ev_alloc++;
   return p;
@@ -236,14 +266,17 @@ cb_parse_alloc (int n)
 static int
 find_blk (void *p)
 {
-  int i;
-  for (i = nblk - 1; i >= 0; i--) if (blks[i].p == (char *) p) return i;
-  return -1;
+  return bidx_get (p);
 }
+static int last_node_blk = -1;
 static int
 containing_blk (void *p)
 {
-  int i;
+  int i = bidx_get (p);
+  if (i >= 0 && blks[i].live) return i;
+  /* children arrays live inside the block of their abstract node */
+  if (last_node_blk >= 0 && blks[last_node_blk].live && (char *) p >= blks[last_node_blk].p
+      && (char *) p < blks[last_node_blk].p + (blks[last_node_blk].n ? blks[last_node_blk].n : 1)) return last_node_blk;
   for (i = nblk - 1; i >= 0; i--)
     if (blks[i].live && (char *) p >= blks[i].p && (char *) p < blks[i].p + (blks[i].n ? blks[i].n : 1)) return i;
   return -1;
@@ -273,13 +306,31 @@ cb_parse_free_in_parse (void *p)
    the graph is acyclic. */
 struct nid { struct yaep_tree_node *n; int id; int state; };
 static struct nid *nids; static int nnid, capnid, next_id;
+static int *nidx; static size_t nidx_cap;
+static void
+nid_reset (void)
+{
+  size_t k;
+  nnid = 0;
+  for (k = 0; k < nidx_cap; k++) nidx[k] = -1;
+}
 static struct nid *
 nid_get (struct yaep_tree_node *n)
 {
-  int i;
-  for (i = 0; i < nnid; i++) if (nids[i].n == n) return &nids[i];
+  size_t h;
+  if ((size_t) (nnid + 1) * 2 > nidx_cap)
+    {
+      size_t nc = nidx_cap ? nidx_cap * 2 : 4096, k; int t;
+      free (nidx); nidx = (int *) malloc (nc * sizeof (int)); nidx_cap = nc;
+      for (k = 0; k < nc; k++) nidx[k] = -1;
+      for (t = 0; t < nnid; t++)
+	{ h = bhash (nids[t].n) & (nc - 1); while (nidx[h] >= 0) h = (h + 1) & (nc - 1); nidx[h] = t; }
+    }
+  h = bhash (n) & (nidx_cap - 1);
+  while (nidx[h] >= 0) { if (nids[nidx[h]].n == n) return &nids[nidx[h]]; h = (h + 1) & (nidx_cap - 1); }
   if (nnid == capnid) { capnid = capnid ? capnid * 2 : 1024; nids = (struct nid *) realloc (nids, capnid * sizeof *nids); }
   nids[nnid].n = n; nids[nnid].id = -1; nids[nnid].state = 0;
+  nidx[h] = nnid;
   return &nids[nnid++];
 }
 static int reach_bad;
@@ -287,7 +338,9 @@ static void
 check_reach (void *p, const char *what)
 {
   if (blks == NULL && nblk == 0) return;
-  if (containing_blk (p) < 0) { printf ("%sreachbad %s\n", prefix, what); reach_bad++; }
+  int b = containing_blk (p);
+  if (b < 0) { printf ("%sreachbad %s\n", prefix, what); reach_bad++; }
+  else if (!strcmp (what, "node")) last_node_blk = b;
 }
 static int check_reach_p;
 static int
@@ -393,7 +446,7 @@ do_parse (int h, const char *alloc_kind, const char *free_kind, int hookflags, i
   if (rc == 0 && root != NULL && !notree)
     {
       int rid;
-      nnid = 0; next_id = 0; reach_bad = 0;
+      nid_reset (); next_id = 0; reach_bad = 0;
       check_reach_p = (af == cb_parse_alloc);
       rid = export_node (root);
       printf ("%sroot %d\n", prefix, rid);
@@ -425,7 +478,7 @@ do_freetree (int h, int slot, int walk_first)
   if (walk_first && r->root != NULL)
     {
       /* re-walk the tree (after the grammar may have been freed): touches every node */
-      int rid; nnid = 0; next_id = 0; check_reach_p = (r->freekind == 1);
+      int rid; nid_reset (); next_id = 0; check_reach_p = (r->freekind == 1);
       rid = export_node (r->root);
       printf ("%sroot %d\n", prefix, rid);
     }
